@@ -3,7 +3,7 @@
    theorem quantifies over all label sequences, i.e. all schedules of the caller, sender, receiver goroutines,
    all points at which the peer closes a connection, any number of connections and requests. *)
 From Coq Require Import List Arith Bool NArith.
-From TarsV Require Import Conc.ClientConn Conc.ClientConnProofs.
+From TarsV Require Import Conc.ClientConn Conc.ClientConnProofs Conc.Adapter Conc.AdapterProofs.
 From TarsV Require Conc.ClientConnConsts Gen.Consts.
 Import ListNotations.
 
@@ -96,6 +96,40 @@ Theorem C11_at_most_once : forall ls s m g g', run true init ls = Some s -> g < 
   (forall h, h < ngen s -> holds (sp (gens s h)) <> Some m).
 Proof. exact ClientConnProofs.at_most_once. Qed.
 
+(* --- close notification (reconnect push): AdapterProxy.onPush swaps in a fresh transport client and grace-closes
+   the old one (model Conc/Adapter.v: a sequence of independent clients; [proj i als] = label sequence of client i) - *)
+(* every transport client inside an adapter run is a run of the client model: all theorems above hold per client *)
+Theorem C11_push_client_is_client_run : forall als a i, arun ainit als = Some a -> i < ncli a ->
+  run true init (proj i als) = Some (cli a i).
+Proof. exact AdapterProofs.client_is_client_run. Qed.
+
+(* the swap never aims the close at the NEW client: TarsClient.Close has never been applied to the current client,
+   no grace close is pending for it, and a grace close step only ever hits a client that has been replaced *)
+Theorem C11_push_never_closes_new : forall als a, arun ainit als = Some a ->
+  ~ In LUserClose (proj (ncli a - 1) als) /\ graced a (ncli a - 1) = false.
+Proof. exact AdapterProofs.current_never_closed_by_swap. Qed.
+Theorem C11_push_grace_hits_replaced_only : forall als a i a', arun ainit als = Some a -> astep a (AGrace i) = Some a' -> S i < ncli a.
+Proof. exact AdapterProofs.grace_close_hits_replaced_client_only. Qed.
+
+(* hence (unless its own sender idle-closes it) the current client closes a connection, and has its closed flag set,
+   only after the server closed that connection or announced its close; and its log is accepted by the spec machine *)
+Theorem C11_push_current_client_healthy_stays : forall als a, arun ainit als = Some a ->
+  let c := ncli a - 1 in
+  (forall g, ~ In (LSIdleClose g) (proj c als)) ->
+  (forall g, dead (gens (cli a c) g) = true -> peerc (gens (cli a c) g) = true /\ In g (lpc (cli a c))) /\
+  c11_accepts (log (cli a c)) = true.
+Proof. exact AdapterProofs.current_client_healthy_stays. Qed.
+
+(* the seeded variant C11-m2 (oldClient read after the new client is installed) violates it: 5-step witness *)
+Theorem C11_push_swapped_refuted : exists a, arun_swapped ainit sched_swapped = Some a /\ ncli a = 2 /\
+  dead (gens (cli a 1) 0) = true /\ peerc (gens (cli a 1) 0) = false /\ lpc (cli a 1) = [] /\ closedF (cli a 1) = true /\
+  dead (gens (cli a 0) 0) = false.
+Proof. exact AdapterProofs.swapped_refuted. Qed.
+Theorem C11_push_example : exists a, arun ainit [ACli 0 LReconnect; ACli 0 (LLogPClose 0); APush 0; ACli 1 LReconnect; AGrace 0] = Some a /\
+  ncli a = 2 /\ dead (gens (cli a 1) 0) = false /\ closedF (cli a 1) = false /\ dead (gens (cli a 0) 0) = true /\
+  arun ainit sched_swapped = None.
+Proof. exact AdapterProofs.swap_example. Qed.
+
 (* --- the tie: the specification machine that validates the recorded logs is sound for the model ---------- *)
 (* the log of EVERY run of the model (all schedules; the client itself never gives up a connection: no
    TarsClient.Close, no idle close — the harness's scripts contain neither) is accepted by [c11_accepts];
@@ -131,6 +165,12 @@ Print Assumptions C11_delivery_inevitable.
 Print Assumptions C11_call_after_known_close.
 Print Assumptions C11_delivery_example.
 Print Assumptions C11_at_most_once.
+Print Assumptions C11_push_client_is_client_run.
+Print Assumptions C11_push_never_closes_new.
+Print Assumptions C11_push_grace_hits_replaced_only.
+Print Assumptions C11_push_current_client_healthy_stays.
+Print Assumptions C11_push_swapped_refuted.
+Print Assumptions C11_push_example.
 Print Assumptions C11_spec_machine_sound.
 Print Assumptions C11_failq_capacity.
 Print Assumptions C11_no_write_to_dead_literal_refuted.
